@@ -1585,7 +1585,7 @@ fn main() {
     let seed = seed_from_env();
     let thorough = arg_str("--tier").as_deref() == Some("thorough");
     let only = arg_str("--only");
-    let per_kind = arg_u64("--seqs", if thorough { 160 } else { 26 });
+    let per_kind = arg_u64("--seqs", if thorough { 160 } else { 48 });
     let len = arg_u64("--len", 40);
     let mut rng = Rng::new(seed);
     directed(&mut t);
